@@ -103,6 +103,9 @@ pub enum Strat {
     PathNoMmap,
     /// `search_path` on a temp file, `MmapChoice::auto()`.
     PathMmap,
+    /// `search_path` on a temp file with `heap_limit(Some(n))`, mmap disabled (the file is read
+    /// into a bounded heap buffer in multi-line mode).
+    PathHeapLimit { limit: usize },
     /// `search_path` on a named pipe fed by a writer thread: a path whose metadata says
     /// "0 bytes" although it yields the whole input (as do /proc files and process substitution).
     PathFifo,
@@ -117,6 +120,7 @@ impl Strat {
             Strat::PathNoMmap => "path(no mmap)".into(),
             Strat::PathMmap => "path(mmap)".into(),
             Strat::PathFifo => "path(named pipe)".into(),
+            Strat::PathHeapLimit { limit } => format!("path(no mmap, heap limit {limit})"),
         }
     }
     pub fn is_reader(&self) -> bool {
@@ -386,6 +390,10 @@ pub fn build_searcher(cfg: &SCfg, strat: &Strat) -> Searcher {
         Strat::PathFifo => {
             b.memory_map(unsafe { MmapChoice::auto() });
         }
+        Strat::PathHeapLimit { limit } => {
+            b.memory_map(MmapChoice::never());
+            b.heap_limit(Some(*limit));
+        }
     }
     b.build()
 }
@@ -444,7 +452,7 @@ fn search_into<M: Matcher, S: grep_searcher::Sink<Error = io::Error>>(
             fired = rdr.fault_fired;
             r
         }
-        Strat::PathNoMmap | Strat::PathMmap => {
+        Strat::PathNoMmap | Strat::PathMmap | Strat::PathHeapLimit { .. } => {
             let path = scratch_path("in");
             std::fs::write(&path, input).expect("write scratch input");
             let r = searcher.search_path(&matcher, &path, &mut sink);
